@@ -46,7 +46,7 @@ ASSUMPTIONS = [
   "attributes; sub-frames; wallclock / non-media time bases; style reference loops (only 'does not raise' is demanded)",
   "value syntax abstentions (never generated, neither as valid nor as malformed): tts:textAlign left/right (mapping depends on the "
   "writing mode), justify; opacity outside [0,1]; colour component values > 255; upper-case named colours; white space inside rgb()/rgba(); "
-  "exponents in numbers; filled/open without a symbol and textEmphasis without a style; two-component tts:fontSize; escapes in font "
+  "exponents in numbers; several white-space characters between the components of a value; filled/open without a symbol and textEmphasis without a style; two-component tts:fontSize; escapes in font "
   "family names; minutes/seconds > 59 in clock times",
   "white-space-only text inside ruby containers (container / baseContainer / textContainer) is ignored",
   "px lengths are only generated when tt carries tts:extent; when the root extent is absent or was the corrupted attribute the pixel "
@@ -411,7 +411,7 @@ def judge_doc(xml: str, counter=None):
   return "violation", "snapshot:" + d[0], d[1], info, nonempty
 
 
-def check_doc(ctx, xml: str, classes=(), source="gen", do_shrink=True):
+def check_doc(ctx, xml: str, classes=(), source="gen", do_shrink=True, witness=None):
   ctx.ev()
   counter = collections.Counter()
   status, key, msg, info, nonempty = judge_doc(xml, counter)
@@ -435,7 +435,7 @@ def check_doc(ctx, xml: str, classes=(), source="gen", do_shrink=True):
     if nonempty and source == "gen" and sum(1 for x in ctx.samples if x.get("kind") == "doc") < 2:
       ctx.sample({"kind": "doc", "elements": info.elements, "xml_head": xml[450:1100]})
     return status
-  witness = xml
+  witness = witness or xml
   if do_shrink and ctx.violation_counts[key] < 2:
     cat = key
     witness = shrink(xml, lambda c: judge_doc(c)[1] == cat)
@@ -552,7 +552,7 @@ def replay(ctx, payload):
   if payload.get("kind") == "corrupt":
     check_corruption(ctx, payload)
   else:
-    check_doc(ctx, payload["xml"], do_shrink=False)
+    check_doc(ctx, payload["xml"], do_shrink=False, witness=payload.get("witness"))
 
 
 def finalize(tier, counters):
